@@ -167,6 +167,10 @@ func (ts *TimeSeries) String() string {
 //
 // AppendTo method implements the AppenderTo interface.
 func (ts *TimeSeries) AppendTo(dst []byte) []byte {
+	if ts == nil {
+		// an absent series is encoded as an empty one
+		ts = &TimeSeries{}
+	}
 	dst = ts.fromTime.AppendTo(dst)
 	dst = ts.untilTime.AppendTo(dst)
 	dst = ts.step.AppendTo(dst)
@@ -200,6 +204,11 @@ func (ts *TimeSeries) TakeFrom(src []byte) ([]byte, error) {
 		return nil, err
 	}
 
+	if ts.fromTime == 0 && ts.untilTime == 0 && ts.step == 0 {
+		// an absent series, see AppendTo
+		ts.values = nil
+		return src, nil
+	}
 	if ts.step <= 0 {
 		return nil, errors.New("step must be positive")
 	}
